@@ -132,6 +132,11 @@ func init() {
 	models[tm+"Before"] = func(m *Machine, _ *Frame, _ *ssa.CallCommon, a []Val) Val { aTime(m); return Lt(term(a[0]), term(a[1])) }
 	models[tm+"Equal"] = func(m *Machine, _ *Frame, _ *ssa.CallCommon, a []Val) Val { aTime(m); return Eq(term(a[0]), term(a[1])) }
 	models[tm+"Add"] = func(m *Machine, _ *Frame, _ *ssa.CallCommon, a []Val) Val { aTime(m); return Add(term(a[0]), term(a[1])) }
+	models[tm+"Unix"] = func(m *Machine, _ *Frame, _ *ssa.CallCommon, a []Val) Val {
+		aTime(m)
+		return T(SInt, "(div "+term(a[0]).S+" 1000000000)")
+	}
+	models[tm+"UnixNano"] = func(m *Machine, _ *Frame, _ *ssa.CallCommon, a []Val) Val { aTime(m); return term(a[0]) }
 	models[tm+"IsZero"] = func(m *Machine, _ *Frame, _ *ssa.CallCommon, a []Val) Val { aTime(m); return Eq(term(a[0]), tzero()) }
 	models[tm+"Sub"] = func(m *Machine, _ *Frame, _ *ssa.CallCommon, a []Val) Val {
 		aTime(m)
